@@ -671,6 +671,32 @@ fn program_mutants(p: &Program, rng: &mut Rng) -> Vec<(String, Program)> {
             q.funcs[k].signature.ret_types.swap(0, 1);
             out.push((format!("retswap_sig#{k}"), q));
         }
+        // the two places a function's parameter types are stored (`signature.param_types`, used by callers, and
+        // `params[..].ty`, used by the body) made to disagree - only expressible in the JSON / felt252 forms
+        for j in 0..f.params.len() {
+            // every declared type for small programs, a seeded one otherwise
+            let others: Vec<_> = if p.type_declarations.len() <= 8 {
+                p.type_declarations.iter().map(|d| d.id.clone()).collect()
+            } else {
+                vec![rng.pick(&p.type_declarations).id.clone()]
+            };
+            for other in others {
+                if other == f.params[j].ty {
+                    continue;
+                }
+                let mut q = p.clone();
+                q.funcs[k].signature.param_types[j] = other.clone();
+                out.push((format!("sigonly#{k}.{j}:{other}"), q));
+                let mut q = p.clone();
+                q.funcs[k].params[j].ty = other.clone();
+                out.push((format!("paramty#{k}.{j}:{other}"), q));
+            }
+        }
+        if f.params.len() >= 2 && f.params[0].ty != f.params[1].ty {
+            let mut q = p.clone();
+            q.funcs[k].signature.param_types.swap(0, 1);
+            out.push((format!("sigswap#{k}"), q));
+        }
     }
     if p.type_declarations.len() >= 2 {
         let mut q = p.clone();
@@ -806,9 +832,16 @@ fn main() {
         for i in 0..program.statements.len() {
             ms.extend(mutants_at(&program, i, &mut rng));
         }
+        // H15_ONLY_OPS=a,b: keep only the mutants whose operator name starts with one of the given prefixes (probing)
+        if let Ok(only) = std::env::var("H15_ONLY_OPS") {
+            let pre: Vec<&str> = only.split(',').collect();
+            ms.retain(|(n, _)| pre.iter().any(|p| n.starts_with(p)));
+        }
         // seeded selection without replacement
         let mut picked = 0;
-        while picked < mutant_budget_per_program && !ms.is_empty() {
+        // negative templates are tiny and each mutant is a deliberate near-miss: all of them are tried
+        let budget = if base.starts_with("n_") { usize::MAX } else { mutant_budget_per_program };
+        while picked < budget && !ms.is_empty() {
             let k = rng.below(ms.len() as u64) as usize;
             let (mname, q) = ms.swap_remove(k);
             let key = format!("{:?}|{:?}|{:?}", q.statements, q.funcs, q.type_declarations);
